@@ -10,6 +10,7 @@
    obs : [sent, pend, closed  : one entry per input channel (values whose send completed / a parked send / close issued),
           sentAt              : per input, completion times,
           cancelled, cancelAt, sentAtCancel (per input), gotAtCancel (per output: how many had been received),
+          lastEnvAt           : time of the environment's last move other than letting time pass,
           got, gotAt, recvAt  : per output: values received, when, and when each receive was issued,
           seen, rp            : per output: close observed / a receive is parked,
           calls               : Seq of [a, x, at]  entries into harness-owned user functions, in order,
@@ -32,7 +33,7 @@ Sel(s, P(_)) == SelectSeq(s, P)
 F(x) == 10 * x
 G(x) == IF x % 2 = 1 THEN <<10 * x, 10 * x + 1>> ELSE <<10 * x>>
 EmitVal(i) == 100 + i
-StepFn(step, s) == CASE step = "double" -> 2 * s [] step = "const" -> s [] OTHER -> s + 1
+StepFn(step, s) == CASE step = "double" -> (2 * s) % 1009 [] step = "const" -> s [] OTHER -> s + 1
 Bit(a, k) == (a \div k) % 2
 And3(a, b) == Bit(a, 1) * Bit(b, 1) + 2 * Bit(a, 2) * Bit(b, 2) + 4 * Bit(a, 4) * Bit(b, 4)
 OrB(x, y) == IF x + y > 0 THEN 1 ELSE 0
@@ -94,10 +95,11 @@ Prefix(cfg, obs) ==
   (cfg.kind \in (SeqKinds \ {"Fold"}) \cup {"Throttling", "New"}) =>
     \A o \in obs.outs : IF Parallel(cfg) THEN SubBag(obs.got[o], L(cfg, o, Offered(obs, 1)))
                                          ELSE IsPrefix(obs.got[o], L(cfg, o, Offered(obs, 1)))
-\* Fold (sequential and forked): at most one value, and it is the fold of everything offered, from the monoid's Empty
+\* Fold: at most one value, and it is the fold of everything offered, from the monoid's Empty
+\* (fork.Fold after a cancel is outside C09 / C10: C09 lists the stages that inherit C06, and Fold is not one of them)
 FoldRes(cfg, obs) ==
   cfg.kind = "Fold" => /\ Len(obs.got["res"]) <= 1
-                       /\ obs.got["res"] # <<>> => obs.got["res"] = L(cfg, "res", Offered(obs, 1))
+                       /\ (obs.got["res"] # <<>> /\ (~cfg.forked \/ ~obs.cancelled)) => obs.got["res"] = L(cfg, "res", Offered(obs, 1))
 \* when the input ended and every returned channel was seen closed (no cancel): exactly the list image
 Complete(cfg, obs) ==
   (OneIn(cfg) /\ ~obs.cancelled /\ AllInClosed(obs) /\ AllSeen(obs)) =>
@@ -119,21 +121,27 @@ CallsComplete(cfg, obs) ==
          /\ IF Parallel(cfg) THEN BagEq(FirstN(CallXs(obs), n), obs.sent[1]) ELSE FirstN(CallXs(obs), n) = obs.sent[1]
     ELSE IF Parallel(cfg) THEN BagEq(CallXs(obs), CalledL(cfg, obs.sent[1])) ELSE CallXs(obs) = CalledL(cfg, obs.sent[1])
 NoPanic(cfg, obs) == ~obs.panic
-\* time a cancelled generator may need before it notices (it sleeps between calls and may still complete buffered sends)
-Grace(cfg) == IF cfg.kind = "Emit" THEN (2 * cfg.cap + 3) * cfg.freq ELSE 0
+\* time a cancelled generator may need, after the environment's last move, before it notices
+\* (it sleeps between calls, may still serve a receiver that is waiting and may still fill its buffer)
+\* a throttled stage hands out `ops` tokens per interval: what it holds may need that many more intervals
+Grace(cfg, obs) == CASE cfg.kind = "Emit" -> (2 * cfg.cap + 3) * cfg.freq
+                     [] cfg.kind = "Throttling" -> ((Len(obs.sent[1]) \div cfg.ops) + 2) * cfg.interval
+                     [] OTHER -> 0
 LiveBound(cfg, obs) == IF cfg.kind = "Throttling" /\ ~obs.cancelled THEN 1 ELSE 0
 \* settle-1: inputs closed, nothing held by the harness, every consumer waiting or done  =>  all closed, goroutines gone
 Settle1(cfg, obs) ==
-  (obs.quiet /\ NIn(obs) > 0 /\ AllInClosed(obs) /\ obs.pending = 0 /\ Drained(obs)) =>
+  (obs.quiet /\ NIn(obs) > 0 /\ AllInClosed(obs) /\ obs.pending = 0 /\ Drained(obs) /\ obs.now >= obs.lastEnvAt + Grace(cfg, obs)) =>
     (AllSeen(obs) /\ obs.live <= LiveBound(cfg, obs))
 \* settle-2: cancelled and inputs closed  =>  goroutines gone, and nobody who does receive is left waiting
 Settle2(cfg, obs) ==
-  (obs.quiet /\ obs.cancelled /\ AllInClosed(obs) /\ obs.pending = 0 /\ obs.now >= obs.cancelAt + Grace(cfg)) =>
+  (obs.quiet /\ obs.cancelled /\ AllInClosed(obs) /\ obs.pending = 0 /\ obs.now >= obs.lastEnvAt + Grace(cfg, obs)) =>
     (obs.live = 0 /\ \A o \in obs.outs : ~obs.rp[o])
 
 (* ==================================================================================== C08 the unbounded channel *)
 NeverBlocksSender(cfg, obs) == (cfg.kind = "New" /\ obs.quiet /\ ~obs.cancelled /\ ~obs.closed[1]) => obs.pend[1] = <<>>
 LosslessAfterCancel(cfg, obs) == (cfg.kind = "New" /\ obs.cancelled /\ obs.seen["out"]) => IsPrefix(obs.sentAtCancel[1], obs.got["out"])
+\* once cancelled, or closed by the sender, a receiver that waits is never left waiting (it gets the backlog, then the close)
+NewSettle(cfg, obs) == cfg.kind = "New" => ~(obs.quiet /\ (obs.cancelled \/ obs.closed[1]) /\ obs.pend[1] = <<>> /\ obs.rp["out"])
 \* (the clean end of stream after close-by-sender is Complete + Settle1 + NoPanic)
 
 (* ==================================================================================== C11 Unfold / Emit *)
@@ -206,7 +214,7 @@ Verdicts(cfg, obs) ==
   [Prefix |-> Prefix(cfg, obs), FoldRes |-> FoldRes(cfg, obs), Complete |-> Complete(cfg, obs), TakeBound |-> TakeBound(cfg, obs),
    CallsPrefix |-> CallsPrefix(cfg, obs), CallsComplete |-> CallsComplete(cfg, obs), NoPanic |-> NoPanic(cfg, obs),
    Settle1 |-> Settle1(cfg, obs), Settle2 |-> Settle2(cfg, obs),
-   NeverBlocksSender |-> NeverBlocksSender(cfg, obs), LosslessAfterCancel |-> LosslessAfterCancel(cfg, obs),
+   NeverBlocksSender |-> NeverBlocksSender(cfg, obs), LosslessAfterCancel |-> LosslessAfterCancel(cfg, obs), NewSettle |-> NewSettle(cfg, obs),
    GenExact |-> GenExact(cfg, obs), EmitPaced |-> EmitPaced(cfg, obs), EmitKeepUp |-> EmitKeepUp(cfg, obs), GenSettle |-> GenSettle(cfg, obs),
    JoinPerInput |-> JoinPerInput(cfg, obs), JoinNothingInvented |-> JoinNothingInvented(cfg, obs), JoinComplete |-> JoinComplete(cfg, obs),
    ThrottleWindow |-> ThrottleWindow(cfg, obs), ThrottlePaced |-> ThrottlePaced(cfg, obs)]
